@@ -1,7 +1,8 @@
 import GlmVerif.Spec.C02
-import GlmVerif.Gen.C02
-/-! table check of family `mulmv` against the model generated from /repo (kernel evaluation) -/
+import GlmVerif.Gen.C02.mulmv
+/-! table check of family `mulmv` against the model of its units generated from /repo (kernel evaluation) -/
 namespace Glm.Props.C02
 open Glm Glm.Spec.C02 Glm.Gen.C02
-theorem mulmv_ok : f_mulmv.ok lookup = true := by decide +kernel
+set_option maxHeartbeats 4000000 in
+theorem mulmv_ok : f_mulmv.ok (fun _ ks => mulmv_L ks) = true := by decide +kernel
 end Glm.Props.C02
